@@ -347,6 +347,9 @@ class BuiltinModel:
         if isinstance(v, VDate):
             if name in ("year", "month", "day"):
                 return VInt({"year": v.y, "month": v.m, "day": v.d}[name])
+        if isinstance(v, VFunc) and v.name == "object" and \
+                name in ("__new__", "__init__"):
+            return VFunc("object." + name)
         if name == "__class__":
             return self.bi_type(v)
         if isinstance(v, (VList, VStr, VDictLit, VTuple, VGen)):
@@ -428,6 +431,11 @@ class BuiltinModel:
         raise Unsupported(name)
 
     def obj_attr_fallback(self, v: VObj, name: str) -> V:
+        if v.klass == "QtyCls" and name == "_unit_cls":
+            if self.path.branch(self.heap.get("QtyCls.$unit_cls_is_currency",
+                                              v.t)):
+                return VClass("Currency")
+            return VClass("Unit")
         if name == "__class__":
             if v.klass in ("Term",):
                 return VClass("Term")
@@ -452,6 +460,8 @@ class BuiltinModel:
         if v.klass == "Term":
             return self.path.branch(self.heap.get("Term.$len", v.t) != 0)
         if v.klass.startswith("List:"):
+            if self.is_alist(v):
+                return self.path.branch(self.alist_len(v) > 0)
             return self.path.branch(
                 z3.Length(self.heap.get("List.$seq", v.t)) > 0)
         return True
@@ -525,9 +535,25 @@ class BuiltinModel:
     def list_elem_klass(self, l: VObj) -> str:
         return M.LIST_KINDS[l.klass.split(":", 1)[1]]
 
+    def is_alist(self, l: VObj) -> bool:
+        return l.klass.split(":", 1)[1] in M.ARRAY_LISTS
+
+    def alist_len(self, l: VObj):
+        return self.heap.get("AList.$len", l.t)
+
     def list_getitem(self, l: VObj, idx: V) -> V:
         if not isinstance(idx, VInt):
             raise Unsupported("list index")
+        if self.is_alist(l):
+            n = self.alist_len(l)
+            i = idx.t
+            if self.path.branch(i < 0):
+                i = i + n
+            if not self.path.branch(z3.And(i >= 0, i < n)):
+                self.I.raise_("IndexError")
+            el = z3.Select(self.heap.get("AList.$arr", l.t), i)
+            self.path.assume(self.heap.get("$alloc", el))
+            return VObj(el, self.list_elem_klass(l))
         seq = self.heap.get("List.$seq", l.t)
         n = z3.Length(seq)
         i = idx.t
@@ -590,6 +616,13 @@ class BuiltinModel:
 
     def new_list(self, kind: str, items: List[VObj]) -> VObj:
         l = self.I.alloc(f"List:{kind}", "list")
+        if kind in M.ARRAY_LISTS:
+            arr = self.heap.get("AList.$arr", l.t)
+            for i, it in enumerate(items):
+                arr = z3.Store(arr, i, it.t)
+            self.heap.set("AList.$arr", l.t, arr)
+            self.heap.set("AList.$len", l.t, z3.IntVal(len(items)))
+            return l
         seq = z3.Empty(z3.SeqSort(Obj))
         for it in items:
             seq = z3.Concat(seq, z3.Unit(it.t))
@@ -708,6 +741,8 @@ class BuiltinModel:
         if isinstance(v, VStr):
             return VInt(z3.Length(v.t))
         if isinstance(v, VObj) and v.klass.startswith("List:"):
+            if self.is_alist(v):
+                return VInt(self.alist_len(v))
             return VInt(z3.Length(self.heap.get("List.$seq", v.t)))
         if isinstance(v, VObj) and v.klass == "Term":
             return VInt(self.heap.get("Term.$len", v.t))
@@ -1098,8 +1133,19 @@ class BuiltinModel:
         return dflt
 
     def bi_List_append(self, l, x):
+        ek = self.list_elem_klass(l)
+        if isinstance(x, VList) and ek.startswith("List:") and \
+                all(isinstance(i, VObj) for i in x.items):
+            # a list literal appended to a list of lists becomes a heap list
+            x = self.new_list(ek.split(":", 1)[1], x.items)
         if not isinstance(x, VObj):
             raise Unsupported("append non-object to heap list")
+        if self.is_alist(l):
+            n = self.alist_len(l)
+            self.heap.set("AList.$arr", l.t,
+                          z3.Store(self.heap.get("AList.$arr", l.t), n, x.t))
+            self.heap.set("AList.$len", l.t, n + 1)
+            return NONE
         seq = self.heap.get("List.$seq", l.t)
         self.heap.set("List.$seq", l.t, z3.Concat(seq, z3.Unit(x.t)))
         return NONE
